@@ -55,8 +55,46 @@ def correspond(ctx):
     viol = []
     for p in c.get('panics', []):
         viol.append(dict(key='panic-escaped', desc='a panic escaped the handlers: ' + p['impl'], replay=p))
+    st = c.get('stats') if isinstance(c.get('stats'), dict) else {}
+    for name in (st.get('retention_changed') or []):
+        viol.append(dict(key='retained-round-changed',
+                         desc='the share sets / recovered signatures of an earlier round (%s) changed after later rounds ran in the same process' % name,
+                         replay=dict(script_name=name, how='harness mode=corr, same seed')))
     c['violations'] = viol
     return [c]
+
+
+RACE_PATH = re.compile(r'consensus/logical/(round|party|processor_party)|consensus/groupsig/|consensus/model/(message|joined)|'
+                       r'group_create/(init|key_request)|access/joined')
+
+
+def _race_reports(stderr):
+    """Race-detector reports that touch the signing round's code (boot-time races of other packages are not ours)."""
+    out = []
+    for b in stderr.split('=================='):
+        if 'DATA RACE' not in b or not RACE_PATH.search(b):
+            continue
+        funcs = re.findall(r'node/src/consensus/[\w/]+\.\(?\*?(\w+)\)?\.(\w+)\(\)', b)
+        sig = ' <-> '.join(sorted(set('%s.%s' % f for f in funcs if f[1] not in ('func1', 'gowrap1')))[:6])
+        if sig not in out:
+            out.append(sig)
+    return out
+
+
+def _run_conc(ctx, n, race, timeout):
+    name = 'c15race' if race else 'c15'
+    binp = os.path.join(vlib.HARNESS, 'bin', name)
+    if race or not os.path.exists(binp):
+        binp, log = vlib.go_build(ctx, vlib.HARNESS, './cmd/c15', name, race=race)
+        if not binp:
+            return None, '', 'harness build failed: ' + log[-1500:]
+    cwd = ctx.scratch('c15conc')
+    env = dict(VERIF_SEED=str(ctx.seed + 104729), VERIF_TIER=ctx.tier, GORACE='halt_on_error=0')
+    rc, so, se = vlib.run([binp, 'mode=conc', 'n=%d' % n], cwd=cwd, env=env, timeout=timeout)
+    shutil.rmtree(cwd, ignore_errors=True)
+    if rc not in (0, 66):
+        return None, se, 'concurrent run exited %d: %s' % (rc, (se or so)[-800:])
+    return so, se, None
 
 
 def _run_search(ctx, args, timeout):
@@ -91,6 +129,29 @@ def search(ctx, hints):
             res['evaluations'] = st.get('ops', 0)
             res['distinct_nontrivial'] = st.get('ops', 0)
             res['stats'] = st
+    # concurrency (evidence, not proof): goroutine pool delivering the messages of several live rounds
+    conc = dict(label='evidence, not proof: concurrent OnMessageVerify on several live rounds of one group; '
+                      'order-independent oracles only', runs=[])
+    plan = [(8, False)] + ([(40, False), (12, True)] if ctx.thorough() else [])
+    for n_sess, race in plan:
+        so2, se2, err2 = _run_conc(ctx, n_sess, race, 1200)
+        if err2:
+            res['error'] = err2
+            break
+        run = dict(sessions=n_sess, race_build=race)
+        for line in so2.split('\n'):
+            if line.startswith('VIOL '):
+                v = json.loads(line[5:])
+                res['violations'].append(dict(key='concurrent-' + v['key'], desc='[concurrent delivery] ' + v['desc'], replay=v['replay']))
+            elif line.startswith('STATS '):
+                st2 = json.loads(line[6:])
+                run['messages'] = st2.get('ops', 0)
+                run['endings'] = st2.get('endings')
+                res['evaluations'] += st2.get('ops', 0)
+        if race:
+            run['race_reports_on_path'] = _race_reports(se2)
+        conc['runs'].append(run)
+    res['concurrency'] = conc
     res['samples'] = [dict(note='searcher oracle: every collected share VerifySig-valid for bh.Hash / preBH.Random under the '
                                  'sender\'s registered key; recovered signatures valid under the group key; >=k honest '
                                  'deliveries => block generated')]
